@@ -45,6 +45,14 @@ T_QUERY = 16384
 T5S = 5 * vtty.TICK_HZ
 
 
+def hang_signature(op: str, kind: str) -> str:
+    return f"{op}:no-fallback:" + ("still-waiting-after-timeout" if kind == "StillWaiting" else "blocks-forever")
+
+
+def no_fallback_seen(rep: Report) -> int:
+    return sum(":no-fallback:" in v.signature for v in rep.violations)
+
+
 def scn_of(f: dict) -> dict:
     return {"opx": f["opx"], "op": f["opx"]["name"], "attr0": f["attr0"], "win": f["win"], "ioctlFails": False,
             "preload": f["preload"], "sched": f["sched"], "enabled": True, "swap": False, "tmo": f["tmo"],
@@ -87,7 +95,9 @@ def replay_virtual(rep: Report, f: dict, kind: str):
     name = scn["op"]
     replay = {"kind": "vtty", "fault_line": f, "fault_kind": kind}
     if fin["status"] == "hung":
-        rep.violation(f"{name}:blocks-forever", fin["hang"], replay)
+        rep.violation(hang_signature(name, fin["kind"]),
+                      f"virtual tty: {fin['hang']}; mode {mode_key(f)}; fault {fault}; {len(run['events'])} system "
+                      f"calls so far, last {[ev['call'] for ev in run['events'][-6:]]}", replay)
         return run, False
     if "traceback" in fin:
         rep.violation(f"{name}:raises:{fin['kind']}", fin["traceback"], replay)
@@ -142,13 +152,22 @@ def run_real(rep: Report, session, f: dict, kind: str, traces, owners) -> None:
     scn, reqs, bursts = real_scn(f)
     fault = dict(f["fault"], kind=kind) if f["fault"]["k"] else None
     replay = {"kind": "pty", "fault_line": f, "fault_kind": kind}
+    if no_fallback_seen(rep) >= 12:
+        rep.extra["pty_skipped_after_no_fallback"] = rep.extra.get("pty_skipped_after_no_fallback", 0) + 1
+        return
     try:
-        res = session.run(scn, requests=reqs, bursts=bursts, fault=fault)
+        res = session.run(scn, requests=reqs, bursts=bursts, fault=fault, retry_silence=not no_fallback_seen(rep))
     except termsim.NoReturn as e:
-        rep.violation(f"{scn['op']}:pty:no-return", f"did not return within 15 s on a real pty ({e}); fault {fault}", replay)
+        rep.violation(hang_signature(scn["op"], "StillWaiting"),
+                      f"real pty: did not return within 15 s ({e}), worker killed; mode {mode_key(f)}; fault {fault}", replay)
         return
     rep.evaluations += 1
     fin = res["final"]
+    if fin["status"] == "hung":
+        rep.violation(hang_signature(scn["op"], fin["kind"]),
+                      f"real pty: {fin['hang']} after {fin['elapsed'] / vtty.TICK_HZ:.2f} s and {len(res['events'])} system "
+                      f"calls; mode {mode_key(f)}; fault {fault}", replay)
+        return
     if "traceback" in fin:
         rep.violation(f"{scn['op']}:raises:{fin['kind']}", fin["traceback"], replay)
         return
@@ -188,13 +207,16 @@ def run_sigints(rep: Report, session, rng, words, n: int, traces, owners) -> Non
         try:
             res = session.run(scn, requests=reqs, bursts=[[] for _ in reqs], sigint_after=0.03)
         except termsim.NoReturn as e:
-            rep.violation(f"{scn['op']}:pty:no-return", f"SIGINT variant did not return ({e})", replay)
+            rep.violation(hang_signature(scn["op"], "StillWaiting"), f"SIGINT variant did not return ({e})", replay)
             continue
         if res.get("sig_failed"):
             rep.extra["sigint_not_judged"] = rep.extra.get("sigint_not_judged", 0) + 1
             continue
         rep.evaluations += 1
         landed += 1
+        if res["final"]["status"] == "hung":
+            rep.violation(hang_signature(scn["op"], res["final"]["kind"]), f"SIGINT variant: {res['final']['hang']}", replay)
+            continue
         if res["raw_equal"] != (res["final"]["attr"] == res["before"]):
             raise tlc.MachineryError("attribute codec and raw comparison disagree")
         traces.append(real_trace(scn, res))
